@@ -445,7 +445,15 @@ impl PathRouter {
         }
 
         for (path, routes) in path2method2component_id.into_iter() {
-            for method in METHODS {
+            // All the methods that at least one route registered for this path is looking for:
+            // the well-known ones, plus the non-standard methods named by a method guard.
+            let mut methods: IndexSet<&str> = METHODS.into_iter().collect();
+            for (guard, _) in &routes {
+                if let MethodGuard::Some(method_guards) = guard {
+                    methods.extend(method_guards.iter().map(|m| m.as_str()));
+                }
+            }
+            for method in methods {
                 let mut relevant_handler_ids = IndexSet::new();
                 for &(guard, &id) in &routes {
                     match guard {
